@@ -107,6 +107,25 @@ def lookup_cases(thorough):
                 rows.append({"cols": cols, "k": k, "deg": deg, "variant": v, "n_bits": 4, "config": R3, "action": {"kind": a}})
     for i, r in enumerate(rows):
         r["id"] = "lk-%d-%s-%s" % (i, r["variant"], r["action"]["kind"])
+    return rows + multi_cases(thorough)
+
+
+def multi_cases(thorough):
+    """#lookups x num_challenges x constraint degree; per cell: honest, and per lookup k one looking value outside its
+    table and one frequency off by one."""
+    rows = []
+    for L in (1, 2, 3):
+        for C in (1, 2, 3):
+            for deg in (2, 3):
+                for nb in ((3, 6) if thorough else (3,)):
+                    cfg = dict(R3)
+                    cfg["nc"] = C
+                    acts = [{"kind": "none"}]
+                    for k in range(L):
+                        acts += [{"kind": "looking_out", "lookup": k}, {"kind": "freq", "lookup": k}]
+                    for a in acts:
+                        rows.append({"id": "ml-L%dC%dd%dn%d-%s%s" % (L, C, deg, nb, a["kind"], a.get("lookup", "")), "cols": 8, "multi": L,
+                                     "deg": deg, "n_bits": nb, "config": cfg, "action": a})
     return rows
 
 
@@ -153,9 +172,11 @@ def run(chk, tier):
     # ---- A: model checking
     jobs = [("StarkLookup N=2", "MCStarkLookup", "MCStarkLookup_thorough" if thorough else "MCStarkLookup_quick", 4, 1700),
             ("Ctl N=2", "MCCtl", "MCCtl_thorough" if thorough else "MCCtl_quick", 4, 1700)]
+    jobs.append(("LookupLayout L<=3 C<=3 (prover index = evaluator index)", "MCLookupLayout", "MCLookupLayout", 1, 300))
     if thorough:
         jobs.append(("StarkLookup F13 N=4 (0/1 frequencies)", "MCStarkLookup", "MCStarkLookup_n4", 6, 1700))
     cjobs = [("canary lk " + m, "MCStarkLookup", "MCStarkLookup_canary_" + m, 1, 300) for m, _, q in LK_MUT if q or thorough]
+    cjobs.append(("canary layout", "MCLookupLayout", "MCLookupLayout_canary_prover_challenge_major", 1, 300))
     cjobs += [("canary ctl " + m, "MCCtl", "MCCtl_canary_" + m, 1, 300) for m, _, q in CTL_MUT if q or thorough]
     with ThreadPoolExecutor(max_workers=3) as ex:
         results = dict(ex.map(_tlc, jobs + cjobs))
@@ -170,6 +191,11 @@ def run(chk, tier):
     for m, what, q in CTL_MUT:
         if q or thorough:
             chk.canary("spec-mutant rejected by TLC: ctl, %s (%s)" % (what, m), results["canary ctl " + m].violated is not None)
+    rl = results["canary layout"]
+    chk.canary("spec-mutant rejected by TLC: prover lays the helper / Z columns out challenge-major (prover_challenge_major), "
+               "smallest counterexample L = 2, C = 2",
+               rl.violated is not None and "nh |-> <<2, 2>>, C |-> 2]" in rl.raw.replace("\n", " ")
+               or (rl.violated is not None and "C |-> 2, nh |-> <<2, 2>>]" in rl.raw.replace("\n", " ")))
     chk.exhaustive = True
 
     # ---- B1: reference predicates on every TLC case
@@ -195,6 +221,26 @@ def run(chk, tier):
     common.write_ndjson(o("c10_lookup.ndjson"), lk)
     out = _absorb(chk, _vh(["lookup", "--scen", o("c10_lookup.ndjson")]), "vh c10 lookup --scen <case>")
     chk.extra["lookup"] = {"cases": len(lk), "accepted": out["accepted"], "rejected": out["rejected"], "panics": out["panics"], "by_class": out["classes"]}
+    # vacuity guard: every (#lookups, #challenges, degree) cell ran honest-accepted and, for EACH lookup of the cell, one
+    # looking value outside its table and one wrong frequency rejected; in particular cells with L >= 2 and C >= 2
+    cells = out.get("cells", {})
+    full = 0
+    for L in (1, 2, 3):
+        for C in (1, 2, 3):
+            for deg in (2, 3):
+                cell = "L%dC%dd%d" % (L, C, deg)
+                ran = cells.get(cell + "/none:acc", 0) + cells.get(cell + "/none:rej", 0) >= 1 and all(
+                    cells.get("%s/%s@%d:acc" % (cell, a, k), 0) + cells.get("%s/%s@%d:rej" % (cell, a, k), 0) >= 1
+                    for k in range(L) for a in ("looking_out", "freq"))
+                if not ran:
+                    raise ToolError("multi-lookup cell %s did not run completely: %s" % (cell, {k: v for k, v in cells.items() if k.startswith(cell)}))
+                good = cells.get(cell + "/none:acc", 0) >= 1 and all(cells.get("%s/%s@%d:rej" % (cell, a, k), 0) >= 1
+                                                                      for k in range(L) for a in ("looking_out", "freq"))
+                if good and L >= 2 and C >= 2:
+                    full += 1
+    if full < 1 and not out["violations"]:
+        raise ToolError("no multi-lookup cell with L >= 2 and C >= 2 ran honest-accepted and per-lookup-corruption-rejected")
+    chk.extra["lookup"]["multi_lookup_cells"] = {"cells": 18, "L>=2,C>=2 cells fully confirmed": full}
     k = next(i for i, c in enumerate(lk) if c["action"]["kind"] == "freq")
     can = _vh(["lookup", "--scen", o("c10_lookup.ndjson"), "--flip-expect", k])
     chk.canary("a flipped expectation (wrong frequency expected to be accepted) is reported by the lookup replay",
